@@ -21,6 +21,8 @@ def run_fragment(ck, ctx, module, label=None, self_attrs=None, only_rules=None, 
     if label:
         spec.name = label
     ex = Explorer(ctx, spec, oracle, self_attrs=self_attrs).explore()
+    if hasattr(oracle, "finish"):
+        oracle.finish(ex)
     if ex.n_unevaluated:
         raise AnalysisError(f"fragment {spec.name}: {ex.n_unevaluated} action evaluation(s) outside the interpreted subset: "
                             + "; ".join(list(ex.unevaluated)[:3]))
